@@ -245,6 +245,40 @@ example :
       s.attackers.map (attView s) = [⟨1, "eve", [(0, ["access"])]⟩]) := by
   rw [json_load_eq_yaml_load]; decide +kernel
 
+/-! ### the type of an association entry does not depend on the order of its keys (repair ff5c204) -/
+
+/-- **Key order independence**: whatever order the file layer returns the keys of an association entry in
+(JSON: insertion order; PyYAML: sorted — so `extras` comes first for a type such as `storage`), `_from_dict`
+finds the association type, for every type name other than the reserved word `extras`. -/
+theorem type_key_any_order (e : AssocEntry) (ks : List String) (hp : ks.Perm (assocKeys e)) (h : e.cls ≠ "extras") :
+    typeKey ks = some e.cls := by
+  unfold typeKey
+  have hf : (ks.filter (fun k => k != "extras")).Perm ((assocKeys e).filter (fun k => k != "extras")) :=
+    hp.filter _
+  have he : (assocKeys e).filter (fun k => k != "extras") = [e.cls] := by
+    have hb : (e.cls != "extras") = true := by simp [h]
+    unfold assocKeys
+    cases e.extras <;> simp [List.filter, hb]
+  rw [he] at hf
+  rw [List.perm_singleton.1 hf]
+  rfl
+
+/-- consequently an association entry loads to the same state whatever the key order -/
+theorem load_assoc_key_order (L : Lang) (order : List String → List String) (s : St) (e : AssocEntry)
+    (hperm : ∀ ks, (order ks).Perm ks) (h : e.cls ≠ "extras") :
+    loadAssocKeyed L order s e = loadAssoc L s e := by
+  unfold loadAssocKeyed
+  rw [type_key_any_order e _ (hperm _) h]
+
+/-- the code before the repair took the first key: for the entry of a `storage` association with extras, whose
+keys PyYAML writes as `extras, storage`, it finds `extras` -/
+theorem first_key_variant_fails :
+    let e : AssocEntry := { cls := "storage", lf := "host", left := [], rf := "disks", right := [], extras := some "{}" }
+    ["extras", "storage"].Perm (assocKeys e) ∧ typeKeyFirst ["extras", "storage"] = some "extras" ∧
+      typeKey ["extras", "storage"] = some "storage" := by
+  refine ⟨?_, rfl, by decide⟩
+  exact List.Perm.swap _ _ _
+
 /-! ### the three extra hypotheses are necessary -/
 
 /-- without `AttNamesNonempty`: an attacker with the empty name comes back as `Attacker:7` -/
